@@ -399,7 +399,7 @@ def drive(acc, case):
     """-> dict(raised=str|None, sent=[bytes], recv=[bytes], cfg=Lean cfg term, contexts=[PresentationContext])"""
     from pynetdicom import AE, build_context, evt
 
-    _, which, calling, called, ctxs, maxpdu, impl, ver, ext = case
+    _, which, calling, called, ctxs, maxpdu, impl, ver, ext = case[:9]
     ae_s, srv, _ = acc.servers[which]
     sent, recv = [], []
     out = {"raised": None, "sent": sent, "recv": recv, "contexts": None}
@@ -431,11 +431,23 @@ def drive(acc, case):
         items = make_ext(ext)
         out["items"] = items
         out["contexts"] = contexts
+        # how the requested contexts reach associate(): the `contexts` keyword, or the AE's own list (filled with
+        # add_requested_context, or assigned): every route must end in the same validated request
+        route = case[9] if len(case) > 9 else alias_rng.choice(["kw", "kw", "ae-add", "ae-set"])
+        out["route"] = route
+        kw = {}
+        if route == "kw":
+            kw["contexts"] = contexts
+        elif route == "ae-set":
+            scu.requested_contexts = contexts
+        else:
+            for ab, tss in ctxs:
+                scu.add_requested_context(ab, list(tss))
         assoc = scu.associate(
             "127.0.0.1",
             srv.server_address[1],
-            contexts=contexts,
             ae_title=called,
+            **kw,
             max_pdu=maxpdu,
             ext_neg=items,
             evt_handlers=[
@@ -493,7 +505,7 @@ def expected_ac_inputs(acc, case, out, rq_canon):
 
     from pynetdicom.presentation import negotiate_as_acceptor
 
-    _, which, calling, called, ctxs, maxpdu, impl, ver, ext = case
+    _, which, calling, called, ctxs, maxpdu, impl, ver, ext = case[:9]
     ae_s, srv, answers_id = acc.servers[which]
     rq = [deepcopy(cx) for cx in out["contexts"]]  # one copy per entry: entries may be the same object
     for i, cx in enumerate(rq):
@@ -565,9 +577,9 @@ def check_case(ctx, acc, case, kind, out, batch):
 
 
 def brief(case):
-    _, which, calling, called, ctxs, maxpdu, impl, ver, ext = case
+    _, which, calling, called, ctxs, maxpdu, impl, ver, ext = case[:9]
     shown = ctxs if len(ctxs) <= 3 else ctxs[:2] + ["…"]
-    return f"acceptor={which} calling={calling!r} called={called!r} contexts[{len(ctxs)}]={shown} max_pdu={maxpdu} impl={impl!r} version={ver!r} ext={ext}"
+    return f"acceptor={which} calling={calling!r} called={called!r} contexts[{len(ctxs)}]={shown} max_pdu={maxpdu} impl={impl!r} version={ver!r} ext={ext}" + (f" contexts-via={case[9]}" if len(case) > 9 else "")
 
 
 def correspond(ctx, acc, batch):
@@ -649,6 +661,15 @@ def dup_id_witness(ctx, acc):
         )
 
 
+def routed(cases):
+    """the directed cases the API must refuse (or that sit on a limit), through every route the contexts can take"""
+    out = []
+    for c in cases:
+        for route in ("kw", "ae-add", "ae-set"):
+            out.append(c + [route])
+    return out
+
+
 FIXED = [
     ["assoc", 0, "SCU", "ANY-SCP", [[VER, [ILE]]], 16382, None, "default", []],
     ["assoc", 0, "ABCDEFGHIJKLMNOP", "ABCDEFGHIJKLMNOP", [[ABS[i % len(ABS)], [TSS[i % len(TSS)]]] for i in range(128)], 2**32 - 1, LONG, "1234567890123456",
@@ -658,6 +679,13 @@ FIXED = [
     ["assoc", 0, "SCU", "ANY-SCP", [[VER, []]], 16382, None, "default", []],
     ["assoc", 0, "SCU", "ANY-SCP", [["1.2.03", [ILE]]], 16382, None, "default", []],
 ]
+FIXED += routed([
+    ["assoc", 0, "SCU", "ANY-SCP", [[VER, []]], 16382, None, "default", []],
+    ["assoc", 1, "SCU", "ANY-SCP", [[VER, [ILE]], [CT, []]], 16382, None, "default", []],
+    ["assoc", 0, "SCU", "ANY-SCP", [["", [ILE]]], 16382, None, "default", []],
+    ["assoc", 0, "SCU", "ANY-SCP", [[VER, [ILE]]] * 128, 16382, None, "default", []],
+    ["assoc", 0, "SCU", "ANY-SCP", [[VER, [ILE]]] * 129, 16382, None, "default", []],
+])
 
 
 def char_sweep(ctx):
